@@ -10,11 +10,13 @@ CONSTANTS
   CarryLayers = {"http", "json", "signed"}
   X509Chains = {"x509", "x509b"}
   KeyOptions = {"der"}
+  ShapeChains = {}
+  ProbeClasses = {}
   ReplaySources = {"valid", "validEmptyTree", "validWithExtensions", "sigCorrupt", "sigByOtherKey", "sigOverOtherSize", "sigOverOtherRoot", "sigOverOtherTimestamp", "sigMissing"}
   HistFresh = {"valid", "validEmptyTree", "validWithExtensions", "sigCorrupt", "sigByOtherKey", "sigOverOtherSize", "sigOverOtherRoot", "sigOverOtherTimestamp", "sigMissing"}
 INIT Init
 NEXT Next
 ACTION_CONSTRAINT HistBound
-INVARIANTS TypeOK OnlyVerifiedSTH OnlyVerifiedSCT ExportHistory
+INVARIANTS TypeOK OnlyVerifiedSTH OnlyVerifiedSCT ConstructionLaw ExportHistory
 PROPERTIES OnlyFrom200 ErrorsCarryResponse NoPartialResults NoCreditForHistory
 CHECK_DEADLOCK FALSE
